@@ -97,6 +97,9 @@ def check_C02(ctx, tier):
     A.rule_A_CODEC(ctx, ctx.repo)                 # ... and what is stored can be decoded by the session that needs it
     A.rule_A_RED_COPY(ctx, ctx.repo, ac, parts=('red',))     # ... also when the archive reached that session inside a pickled decorator (same format settings)
     A.rule_A_ABS(ctx, ctx.repo, ac)               # ... and under the same location whatever the working directory is by then
+    A.rule_A_WRITEALL(ctx, ctx.repo, ac)          # ... every dumped entry is really written (no "already there" shortcut decided on this handle's view)
+    A.rule_A_NOCACHE(ctx, ctx.repo, ac)           # ... and read back from the store itself (a second decorator's handle sees it)
+    A.rule_A_PATHNORM(ctx, ctx.repo)              # ... and no guard on the way refuses every key because it compares a resolved path with an unresolved one
     ctx.assume('cache.load(k) retrieves what cache.dump(k) stored for every backend (C03/C04/C08 decide their structural part)')
     ctx.assume('cache.archived() and purge have one value during a single wrapper call')
     return ('Compute-once on every path: at most one evaluation; evaluation only directly after a failed lookup of K which, '
@@ -118,6 +121,8 @@ def check_C05(ctx, tier):
         if d.name == 'mru_cache':
             _sample_paths(ctx, d, paths, lambda o: o.kind == 'return' and any(e.kind == 'DEL' for e in o.st.events))
     S.rule_S_LOAD_DUMP(ctx, ctx.repo)              # cache.load(key) brings in at most the one entry the overflow test then accounts for (a tuple key is not unpacked)
+    S.rule_S_PLAIN_EFF(ctx, ctx.repo)              # cache[k] = v stores (plain dict): a key the bookkeeping records is resident, so its eviction removes an entry
+    A.rule_A_CODEC_CONFIG(ctx, ctx.repo)           # the dump that precedes a purge is not refused for values the function may return (nan / inf under json)
     ctx.assume('a victim popped from the bookkeeping is still resident (container invariant "bookkeeping subset of resident"; '
                'W-BK checks the local steps that maintain it); paths where del cache[v] raises the swallowed KeyError are listed, not reported')
     return ('Capacity: after every insertion or load an overflow test len(cache) > maxsize (or stricter) is evaluated on every normal '
@@ -134,8 +139,12 @@ def check_C06(ctx, tier):
         W.rule_W_BK(ctx, d, paths)
         W.rule_W_BKRES(ctx, d, paths)
         W.rule_W_ALIAS(ctx, d)                     # the bound-method shortcuts of the recency queue keep pointing at the queue
+        W.rule_W_BKUNBOUNDED(ctx, d)               # ... which never drops a recorded use on its own (no maxlen)
+        W.rule_W_CLEAR(ctx, d)                     # clear() empties the bookkeeping with the cache: use counts are "since the entry entered the cache"
         if d.name == 'lru_cache' and d.modname == '_cache':
             _sample_paths(ctx, d, paths, lambda o: o.kind == 'return' and any((e.extra or {}).get('driver') for e in o.st.events))
+    S.rule_S_PLAIN_EFF(ctx, ctx.repo)              # del cache[victim] removes exactly that entry, cache[k] = v stores it (plain dict operations)
+    A.rule_A_FNAME(ctx, ctx.repo, A.Cache(ctx.repo, unroll=1))   # ... also when the cache is a directory archive used directly: two keys never share an entry
     ctx.assume('tie-breaking among equal counts/recencies and residency of the selected victim are not decided')
     return ('Policy-defining operations on every path: LRU records each use at one end with paired refcounts and evicts from the other '
             'end skipping keys with later uses, compaction preserves order; MRU moves a hit to the recent end and evicts from it before '
@@ -158,6 +167,7 @@ def check_C07(ctx, tier):
     S.rule_S_PLAIN_EFF(ctx, ctx.repo)      # ... and no other operation of the cache object (pop, del, clear, ...) reaches into the archive
     _ac = A.Cache(ctx.repo, unroll=1 if tier == 'quick' else 2)
     A.rule_A_PUBFAIL(ctx, ctx.repo, _ac)   # a failed write-back never replaces or removes what is archived
+    A.rule_A_PUB(ctx, ctx.repo, _ac, only_foreign=True)       # ... and is staged next to its target, so the publishing rename cannot fail for being on another file system (a swallowed EXDEV)
     A.rule_A_WRITEALL(ctx, ctx.repo, _ac)  # a dumped entry is written whatever the archive holds already
     A.rule_A_FNAME(ctx, ctx.repo, _ac)     # ... under a name of its own (a dump never overwrites the entry of another key)
     A.rule_A_NOCACHE(ctx, ctx.repo, _ac)   # ... on top of what the store holds now (no remembered image that another handle's write has made stale)
@@ -180,6 +190,7 @@ def check_C15(ctx, tier):
         W.rule_W_CLEAR(ctx, d)
         if d.name == 'inf_cache':
             _sample_paths(ctx, d, paths, lambda o: o.kind == 'return', 2)
+    S.rule_S_LOAD_DUMP(ctx, ctx.repo)              # a stored result is fetched by cache.load(key) (counted as load), never taken for absent (counted as a miss, with a second evaluation)
     return ('Exactly one counter += 1 per completed call, matching the outcome (hit/load/miss) under the field order info() reports; '
             'no counter change when the function raises; info() wiring; clear(keepstats) empties cache and bookkeeping and resets '
             'counters iff keepstats is false.')
@@ -197,6 +208,8 @@ def check_C16(ctx, tier):
         if d.name == 'lru_cache' and d.modname == 'safe':
             _sample_paths(ctx, d, paths, lambda o: any(e.kind == 'GETERR' for e in o.st.events))
     A.rule_A_READFAIL(ctx, ctx.repo, A.Cache(ctx.repo, unroll=1))   # the archive probe on a miss answers "absent" (KeyError) for a key it cannot read; anything else escapes the wrapper before the function ran
+    A.rule_A_FNAME(ctx, ctx.repo, A.Cache(ctx.repo, unroll=1))      # ... for every key (the entry name is computed outside the probe's handlers)
+    S.rule_S_LOAD_DUMP(ctx, ctx.repo)              # the probe of a call that then raises loads nothing but the entry of its own key (a tuple key is one key)
     ctx.assume('exceptions of the wrapped function are split exactly by the handler classes that occur in each wrapper, plus KeyError, '
                'TypeError, a generic Exception subclass and a BaseException-only class')
     return ('On every path where the function raises: single evaluation, no cache/archive/bookkeeping/statistics mutation anywhere on the '
@@ -213,6 +226,9 @@ def check_C18(ctx, tier):
         W.rule_W_UPDATER(ctx, d)
         W.rule_W_STATE(ctx, d, keys=('keymap', 'ignore'), allow_default=True)   # the keymap / ignore key() uses are this decorator's own
     A.rule_A_SCHEMA(ctx, ctx.repo)     # key(args) names the entry also after a trip through the archive (keys come back with the type they were stored with)
+    S.rule_S_LOAD_DUMP(ctx, ctx.repo)  # ... the entry is archived under key(args) itself (a tuple key is never taken for a collection of keys)
+    A.rule_A_FNAME(ctx, ctx.repo, A.Cache(ctx.repo, unroll=1))   # ... and under a name no other key shares (key('a/b') is not reported archived because 'a_b' is)
+    A.rule_A_CODEC(ctx, ctx.repo)      # ... and stays readable there (the reader accepts whatever the writer emitted)
     return ('key() returns the same normal form K the wrapper looks up and stores under (36 sites), lookup() returns GET(K) and lets '
             'KeyError escape, neither evaluates nor mutates; interface attributes are wired to the decorator\'s own cache/keymap/ignore.')
 
@@ -227,8 +243,11 @@ def check_C09(ctx, tier):
     G.rule_G_SELFTRUTH(ctx, ctx.repo)              # ... or evaluate to as booleans
     G.rule_G_SELFDROP(ctx, ctx.repo)               # which parameters are masked does not depend on whether the call spells its arguments positionally
     G.rule_V_PARTIALSHAPE(ctx, ctx.repo)           # the names values are filed under are those of the callable itself, not of a delegate it happens to keep in `.func`
+    G.rule_V_CALLFALLBACK(ctx, ctx.repo)           # ... and a partial is never inspected through partial.__call__ (self, *args, **kwargs)
     G.rule_G(ctx, ctx.repo, want=('G-VAL', 'G-PREC'))
     G.rule_G_STALE(ctx, ctx.repo)
+    S.rule_S_IDENT(ctx, ctx.repo, parts=('optional',))   # a partial's fixed None is not taken for an open slot (names would shift for the positional spelling only)
+    RR.rule_W_KEY_keygen(ctx, ctx.repo)            # klepto.keygen computes key() exactly as the call does (same keymap, same arguments)
     RR.rule_R_GUARD_STR_KW(ctx, ctx.repo)          # rounding, which runs before the binding to names, treats a value alike whether it came positionally or by keyword
     RR.rule_R_DEEP(ctx, ctx.repo)                  # ... at every depth (positional and keyword containers are rebuilt the same way)
     for d, paths in _wrappers(ctx, tier):
@@ -255,6 +274,8 @@ def check_C10(ctx, tier):
     G.rule_G(ctx, ctx.repo, want=('G-VAL', 'G-PREC'))
     RR.rule_R_GUARD_STR_KW(ctx, ctx.repo)  # rounding touches floats only: every other value (bool vs int under typed=True) reaches the keymap as it was passed
     RR.rule_R_PURE(ctx, ctx.repo)          # the package never changes a keymap (its typed / flat / sentinel settings) that the caller handed in
+    RR.rule_W_KEY_keygen(ctx, ctx.repo)    # klepto.keygen: key() answers for the arguments provided last, whatever accessor ran in between
+    K.rule_K_RED(ctx, ctx.repo)            # a copied / pickled keymap keeps its whole chain and options (a + b copies its operands)
     ctx.assume('injectivity of repr/str/pickle of the argument values and fast-type unwrapping collisions are not decided')
     return ('Every positional argument and every (name, value) keyword item reaches the key whole on every path of keymap.encode/encrypt; '
             'typed keys append the types of all positional and all keyword values; a configured sentinel separates every two adjacent '
@@ -268,6 +289,7 @@ def check_C17(ctx, tier):
     K.rule_K_HASH(ctx, ctx.repo)
     K.rule_K_OWN(ctx, ctx.repo)     # a key must not depend on what this process keyed before (module-level state on the key path)
     K.rule_K_BYREF(ctx, ctx.repo)   # dill pickles by reference
+    K.rule_K_RED(ctx, ctx.repo)     # a keymap that travelled to the other session inside a pickled decorator keys as it did here
     S.rule_S_LOAD_DUMP(ctx, ctx.repo)   # the key is handed to the archive as the one object it is (a raw key is a tuple: never unpacked into several keys)
     RR.rule_R_STATELESS(ctx, ctx.repo)  # rounding (the first step of every key) keeps no state between calls
     RR.rule_R_GUARD_STR_KW(ctx, ctx.repo)   # ... and rounds floats only (round(Decimal, n) follows the thread's decimal context)
@@ -287,8 +309,11 @@ def check_C11(ctx, tier):
     G.rule_G(ctx, ctx.repo, want=('G-VAL',))       # everything that is not ignored still reaches the key
     G.rule_G_SELFDROP(ctx, ctx.repo)               # ... also the first positional argument, unless its own parameter is ignored
     G.rule_G_SELFTRUTH(ctx, ctx.repo)              # ... and the instance is recognised whatever its truth value
+    G.rule_G_FUNCIDENT(ctx, ctx.repo)              # ... and whichever function object (the original, its unpickled copy) is being keyed
     G.rule_V_TRYRESET(ctx, ctx.repo)               # names and values stay aligned: an object that merely has an `.args` attribute is not taken for a partial
     G.rule_V_PARTIALSHAPE(ctx, ctx.repo)
+    G.rule_V_CALLFALLBACK(ctx, ctx.repo)           # ... and a partial is never inspected through partial.__call__ (self, *args, **kwargs)
+    S.rule_S_IDENT(ctx, ctx.repo, parts=('optional',))   # ... and an argument a partial fixes to None is not taken for an open position (an optional marker that is None here)
     K.rule_K_OWN(ctx, ctx.repo)                    # the decomposition of the ignore spec does not depend on earlier calls (module-level state)
     K.rule_K_REPR(ctx, ctx.repo)                   # the substitute NULL has a constant repr
     for d, paths in _wrappers(ctx, tier):
@@ -312,8 +337,10 @@ def check_C19(ctx, tier):
     G.rule_G_STALE(ctx, ctx.repo)
     G.rule_V_TRYRESET(ctx, ctx.repo)
     G.rule_V_PARTIALSHAPE(ctx, ctx.repo)
+    G.rule_V_CALLFALLBACK(ctx, ctx.repo)           # ... and a partial is never inspected through partial.__call__ (self, *args, **kwargs)
     S.rule_S_IDENT(ctx, ctx.repo, parts=('optional',))   # a fixed argument is told from an open position without mistaking None for a marker
     G.rule_V_DOUBLESTAR(ctx, ctx.repo)             # a keyword the caller repeats overrides the partial's: never forwarded through two ** expansions
+    G.rule_V_NAMESHAPE(ctx, ctx.repo)              # keyword names are compared, never judged by their spelling
     K.rule_K_OWN(ctx, ctx.repo)                    # signature() is free of cross-call state (a memoised argspec mutated in place changes later verdicts)
     ctx.assume("agreement of validate's individual binding checks with the interpreter (counting, partial bookkeeping) is value-level and not decided")
     return ('Necessary conditions for "validate/isvalid agree with Python\'s binding without calling the function": every rejection is a TypeError; '
@@ -359,6 +386,8 @@ def check_C08(ctx, tier):
     S.rule_S_IDENT(ctx, ctx.repo)             # the archiving switch does not depend on the identity of a per-process placeholder
     A.rule_A_NONE_ABSENT(ctx, ctx.repo)       # load / dump / sync never take a stored None for an absent key
     A.rule_A_CODEC_CONFIG(ctx, ctx.repo)      # what load() reads carries the keys and values that were stored (no guessing conversion on the way back)
+    A.rule_A_CODEC(ctx, ctx.repo)             # ... and the reader accepts everything the writer emits (one unreadable value would make the whole archive read as empty)
+    A.rule_A_FACTORY_OPEN(ctx, ctx.repo, ac8, open_only=True, factories=False)   # opening another handle on the archive does not undo or disturb a dump (no removal in the constructors)
     A.rule_A_SCHEMA(ctx, ctx.repo)            # after dump() a key reads back the value written last (sqlite row order, untyped columns)
     A.rule_A_READFAIL(ctx, ctx.repo, ac8)     # dump / load / sync on an archive whose file is empty or unreadable treat it as empty
     ctx.assume('archive.update / __asdict__ / __getitem__ of each backend behave as dict operations (C03)')
@@ -493,6 +522,9 @@ def check_C20(ctx, tier):
     S.rule_S_IDENT(ctx, ctx.repo)     # no behaviour hangs on the identity of a module-level instance that pickling copies
     K.rule_K_REPR(ctx, ctx.repo)      # K-SINGLETON: marker objects inside keys survive the round trip as themselves
     K.rule_K_STATE(ctx, ctx.repo)     # a keymap keeps its options through copy / pickle
+    K.rule_K_RED(ctx, ctx.repo)       # ... all of them: a pickling hook of a keymap class names every attribute the constructor sets
+    G.rule_G_FUNCIDENT(ctx, ctx.repo) # the restored function (a new object) is keyed exactly like the original: nothing on the key path compares the callable by identity
+    S.rule_S_LOAD_DUMP(ctx, ctx.repo) # what the original dumps to the shared archive later is found by the copy: load asks the archive for every named key
     ctx.require_instances('W-RED', 12, 'decorator __reduce__ methods')
     ctx.assume("dill's by-value closure pickling and lock-step equality of the clone are not decided")
     return ('Each decorator\'s __reduce__ rebuilds the class from __state__ with every __init__ parameter in its own position (or the '
